@@ -176,6 +176,7 @@ Definition default_policy (oob : Q -> Z) (rnd : Z -> Z) : policy :=
 
 Inductive bodykind :=
 | KNone                       (* req.Body == nil *)
+| KNoBody                     (* req.Body == http.NoBody, GetBody nil (http.NewRequest(m, u, http.NoBody)) *)
 | KReplay                     (* GetBody set *)
 | KOneShot                    (* Body set, GetBody nil *)
 | KGetBodyErr (ok_calls : nat). (* GetBody succeeds ok_calls times, then fails *)
@@ -189,14 +190,22 @@ Definition init_state (bd : body) : bstate := mkSt (bdata bd) 0.
 
 Inductive rewind_result := RwOk (st : bstate) | RwNoGetBody | RwGetBodyErr.
 
-(* the common part of Transport.RoundTrip's rewind and auth.rewindRequestBody *)
+(* auth.rewindRequestBody (Body nil or http.NoBody: nothing to do) *)
 Definition rewind (bd : body) (st : bstate) : rewind_result :=
   match bk bd with
-  | KNone => RwOk st
+  | KNone | KNoBody => RwOk st
   | KReplay => RwOk (mkSt (bdata bd) (S (s_calls st)))
   | KOneShot => RwNoGetBody
   | KGetBodyErr k => if (s_calls st <? k)%nat then RwOk (mkSt (bdata bd) (S (s_calls st)))
                      else RwGetBodyErr
+  end.
+
+(* the rewind of Transport.RoundTrip: the same, except that it has no special case for
+   http.NoBody -- a non-nil Body without GetBody is never retried *)
+Definition rt_rewind (bd : body) (st : bstate) : rewind_result :=
+  match bk bd with
+  | KNoBody => RwNoGetBody
+  | _ => rewind bd st
   end.
 
 Definition take_body (r : option nat) (s : str) : str * str :=
@@ -297,7 +306,7 @@ Definition rt_step (p : policy) (cn : cancel) (bd : body)
     if d <? 0 then stop
     else
       (* rewind the body if possible (req.Body == nil: nothing to do) *)
-      match rewind bd st1 with
+      match rt_rewind bd st1 with
       | RwNoGetBody | RwGetBodyErr => stop
       | RwOk st2 =>
         let tr2 := tr1 ++ [EPause t1 d] in
